@@ -339,7 +339,12 @@ func BuildGenesis(spec GenSpec, r *rand.Rand) (*types.AppState, *World) {
 			}
 		} else {
 			// extra candidates: small stakes, some offline
-			add(owner.Addr, 0, Bip(int64(500+r.Intn(3000))))
+			if spec.ExtraCands > 50 {
+				// crowded family: many exactly equal stakes, so that the 100-candidate cut falls inside a tie
+				add(owner.Addr, 0, Bip(int64(1000+100*r.Intn(3))))
+			} else {
+				add(owner.Addr, 0, Bip(int64(500+r.Intn(3000))))
+			}
 			if r.Intn(2) == 0 {
 				c.Status = 1
 			}
